@@ -4,6 +4,7 @@
 //   - its Go type kind,
 //   - how the owning struct's Clone produces it in the copy (assigned / cloned / rebuilt / absent),
 //   - whether a settings method writes it, and whether one mutates the referenced object in place.
+//
 // Plus a few boolean facts about Client.Clone / Client.R / SetTLSFingerprint.
 // The extractor works on go/ast only and REFUSES when the source leaves the shapes it knows.
 package main
@@ -29,7 +30,10 @@ type c19Field struct {
 	how, via  string
 	hasSetter bool
 	inPlace   bool
-	note      []string
+	// a map whose values are slices (url.Values, http.Header): a shallow copy of the map still
+	// shares the value slices, which the setters append to
+	sliceValued bool
+	note        []string
 }
 
 type c19Struct struct {
@@ -188,8 +192,18 @@ func (x *c19) loadStruct(key, dir, goName string, targets map[string]string) err
 				names = append(names, n.Name)
 			}
 		}
+		sv := false
+		if mt, ok := f.Type.(*ast.MapType); ok {
+			if at, ok := mt.Value.(*ast.ArrayType); ok && at.Len == nil {
+				sv = true
+			}
+		}
+		switch typeName(f.Type) {
+		case "urlpkg.Values", "url.Values", "http.Header":
+			sv = true
+		}
 		for _, n := range names {
-			s.add(&c19Field{name: n, kind: k, embedded: emb})
+			s.add(&c19Field{name: n, kind: k, embedded: emb, sliceValued: sv})
 			if tgt, ok := targets[typeName(f.Type)]; ok {
 				x.target[key+"."+n] = tgt
 				if emb {
@@ -209,10 +223,10 @@ type c19Hop struct{ owner, field string }
 
 // c19Ref: what an expression denotes.
 type c19Ref struct {
-	obj   string    // struct key when the expression denotes a struct instance (value or pointer), else ""
-	owner string    // when it denotes a field: owning struct key
-	field string    // … and field name
-	hops  []c19Hop  // pointer fields traversed to reach the instance holding the field / the instance itself
+	obj   string   // struct key when the expression denotes a struct instance (value or pointer), else ""
+	owner string   // when it denotes a field: owning struct key
+	field string   // … and field name
+	hops  []c19Hop // pointer fields traversed to reach the instance holding the field / the instance itself
 }
 
 func (r *c19Ref) isField() bool { return r != nil && r.field != "" }
@@ -340,6 +354,8 @@ func exprString(e ast.Expr) string {
 		return exprString(t.X) + "[" + exprString(t.Index) + "]"
 	case *ast.BasicLit:
 		return t.Value
+	case *ast.BinaryExpr:
+		return exprString(t.X) + " " + t.Op.String() + " " + exprString(t.Y)
 	case *ast.ArrayType:
 		return "[]" + exprString(t.Elt)
 	case *ast.CompositeLit:
@@ -486,383 +502,6 @@ func (x *c19) methods(dir string, structs map[string]string) ([]c19Method, error
 	return out, nil
 }
 
-// ---------------------------------------------------------------- Clone bodies
-
-var c19CloneHelpers = map[string]bool{"cloneMap": true, "cloneUrlValues": true, "cloneSlice": true}
-
-// classify the expression that produces field `fname` of the copy; src is the receiver name.
-func c19Classify(e ast.Expr, src string, fname string) (how, via string) {
-	want := src + "." + fname
-	switch t := e.(type) {
-	case *ast.CallExpr:
-		// helper(src.F)
-		if id, ok := t.Fun.(*ast.Ident); ok {
-			if c19CloneHelpers[id.Name] && len(t.Args) == 1 {
-				if strings.HasSuffix(exprString(t.Args[0]), "."+fname) && strings.HasPrefix(exprString(t.Args[0]), src+".") {
-					return "cloned", id.Name
-				}
-				return "rebuilt", id.Name + "(" + exprString(t.Args[0]) + ")"
-			}
-			if id.Name == "append" && len(t.Args) == 2 && t.Ellipsis.IsValid() {
-				a0 := exprString(t.Args[0])
-				// append(nil-ish or the fresh object's own still-empty field, src.F...)
-				if strings.HasSuffix(exprString(t.Args[1]), "."+fname) && !strings.HasPrefix(a0, src+".") {
-					return "cloned", "append(" + a0 + ", …)"
-				}
-			}
-		}
-		// src.F.Clone()
-		if sel, ok := t.Fun.(*ast.SelectorExpr); ok && sel.Sel.Name == "Clone" && len(t.Args) == 0 {
-			xs := exprString(sel.X)
-			if xs == want || (strings.HasPrefix(xs, src+".") && strings.HasSuffix(xs, "."+fname)) {
-				return "cloned", "Clone()"
-			}
-		}
-		return "rebuilt", exprString(t.Fun) + "(…)"
-	case *ast.UnaryExpr:
-		if t.Op == token.AND {
-			return "rebuilt", "&" + exprString(t.X)
-		}
-	case *ast.CompositeLit:
-		return "rebuilt", "composite literal"
-	case *ast.FuncLit:
-		return "rebuilt", "func literal"
-	}
-	s := exprString(e)
-	if s == want || (strings.HasPrefix(s, src+".") && strings.HasSuffix(s, "."+fname)) {
-		return "assigned", "= " + s
-	}
-	if _, ok := e.(*ast.SliceExpr); ok {
-		return "assigned", "slice expression"
-	}
-	return "rebuilt", "= " + s
-}
-
-func (x *c19) set(owner, field, how, via string) error {
-	s := x.structs[owner]
-	f, ok := s.byName[field]
-	if !ok {
-		return fmt.Errorf("Clone of %s mentions unknown field %s", owner, field)
-	}
-	f.how, f.via = how, via
-	return nil
-}
-
-func (x *c19) literalFields(owner string, lit *ast.CompositeLit, src string) error {
-	for _, el := range lit.Elts {
-		kv, ok := el.(*ast.KeyValueExpr)
-		if !ok {
-			return fmt.Errorf("%s literal in Clone is not keyed", owner)
-		}
-		k, ok := kv.Key.(*ast.Ident)
-		if !ok {
-			return fmt.Errorf("%s literal key %T", owner, kv.Key)
-		}
-		how, via := c19Classify(kv.Value, src, k.Name)
-		if err := x.set(owner, k.Name, how, via); err != nil {
-			return err
-		}
-	}
-	return nil
-}
-
-func c19Lit(e ast.Expr) *ast.CompositeLit {
-	if u, ok := e.(*ast.UnaryExpr); ok && u.Op == token.AND {
-		e = u.X
-	}
-	l, _ := e.(*ast.CompositeLit)
-	return l
-}
-
-// containsCall reports whether n contains a call whose callee text matches.
-func containsCall(n ast.Node, match func(fun string, call *ast.CallExpr) bool) (found bool, pos token.Pos) {
-	ast.Inspect(n, func(m ast.Node) bool {
-		if c, ok := m.(*ast.CallExpr); ok && !found {
-			if match(exprString(c.Fun), c) {
-				found, pos = true, c.Pos()
-			}
-		}
-		return !found
-	})
-	return
-}
-
-func (x *c19) cloneClient() (facts map[string]bool, err error) {
-	facts = map[string]bool{}
-	fd, err := x.c.funcDecl("", "Client", "Clone")
-	if err != nil {
-		return nil, err
-	}
-	if len(fd.Recv.List[0].Names) != 1 {
-		return nil, fmt.Errorf("Client.Clone: unnamed receiver")
-	}
-	src := fd.Recv.List[0].Names[0].Name
-	dst := ""
-	var httpClientPos, jarPos token.Pos
-	for _, st := range fd.Body.List {
-		switch s := st.(type) {
-		case *ast.AssignStmt:
-			if len(s.Lhs) != 1 || len(s.Rhs) != 1 {
-				return nil, fmt.Errorf("Client.Clone: multi-assignment")
-			}
-			if id, ok := s.Lhs[0].(*ast.Ident); ok && s.Tok == token.DEFINE {
-				if exprString(s.Rhs[0]) == "*"+src {
-					if dst != "" {
-						return nil, fmt.Errorf("Client.Clone: second value copy")
-					}
-					dst = id.Name
-					for _, f := range x.structs["Client"].fields {
-						f.how, f.via = "assigned", dst+" := *"+src
-					}
-				}
-				continue // other locals
-			}
-			sel, ok := s.Lhs[0].(*ast.SelectorExpr)
-			if !ok {
-				return nil, fmt.Errorf("Client.Clone: unsupported assignment target %s", exprString(s.Lhs[0]))
-			}
-			base := exprString(sel.X)
-			if dst == "" {
-				return nil, fmt.Errorf("Client.Clone: assignment before the value copy")
-			}
-			if base == dst {
-				how, via := c19Classify(s.Rhs[0], src, sel.Sel.Name)
-				if err := x.set("Client", sel.Sel.Name, how, via); err != nil {
-					return nil, err
-				}
-				if sel.Sel.Name == "httpClient" {
-					httpClientPos = s.Pos()
-				}
-			}
-			// writes into locals (client.Transport = …) are part of a rebuild: ignore
-		case *ast.ExprStmt:
-			call, ok := s.X.(*ast.CallExpr)
-			if !ok {
-				return nil, fmt.Errorf("Client.Clone: unsupported statement")
-			}
-			switch exprString(call.Fun) {
-			case dst + ".initCookieJar":
-				jarPos = call.Pos()
-			case dst + ".initTransport":
-			default:
-				if ok, _ := containsCall(call, func(fun string, c *ast.CallExpr) bool {
-					return strings.HasSuffix(fun, ".SetOptions") && len(c.Args) == 1 && strings.Contains(exprString(c.Args[0]), "lit")
-				}); ok {
-					// handled below (dumpRelinked)
-				} else if strings.HasPrefix(exprString(call.Fun), dst+".SetTLSFingerprint") || strings.HasPrefix(exprString(call.Fun), dst+".") {
-					// a setter re-applied on the copy
-				} else {
-					return nil, fmt.Errorf("Client.Clone: unsupported call %s", exprString(call.Fun))
-				}
-			}
-		case *ast.IfStmt:
-			// `if len(cc.roundTripWrappers) > 0 { cc.wrappedRoundTrip = …; for … }` and relinking blocks
-			for _, inner := range s.Body.List {
-				if as, ok := inner.(*ast.AssignStmt); ok && len(as.Lhs) == 1 {
-					if sel, ok := as.Lhs[0].(*ast.SelectorExpr); ok && exprString(sel.X) == dst {
-						how, via := c19Classify(as.Rhs[0], src, sel.Sel.Name)
-						if how == "rebuilt" {
-							via = "re-wrapped in Clone"
-						}
-						if err := x.set("Client", sel.Sel.Name, how, via); err != nil {
-							return nil, err
-						}
-					}
-				}
-			}
-		case *ast.ReturnStmt, *ast.DeclStmt:
-		default:
-			return nil, fmt.Errorf("Client.Clone: unsupported statement %T", st)
-		}
-	}
-	if dst == "" {
-		return nil, fmt.Errorf("Client.Clone: no `cc := *c` value copy found")
-	}
-	facts["jarRebuilt"] = jarPos.IsValid() && httpClientPos.IsValid() && jarPos > httpClientPos
-	// dump relinked: some call X.SetOptions(dumpOptions{cc.dumpOptions}) inside Clone
-	relinked := false
-	ast.Inspect(fd.Body, func(n ast.Node) bool {
-		if c, ok := n.(*ast.CallExpr); ok {
-			if sel, ok := c.Fun.(*ast.SelectorExpr); ok && sel.Sel.Name == "SetOptions" && len(c.Args) == 1 {
-				if l := c19Lit(c.Args[0]); l != nil && len(l.Elts) == 1 && exprString(l.Elts[0]) == dst+".dumpOptions" {
-					relinked = true
-				}
-			}
-		}
-		return true
-	})
-	facts["dumpRelinked"] = relinked
-	rebound, _ := containsCall(fd.Body, func(fun string, c *ast.CallExpr) bool { return fun == dst+".SetTLSFingerprint" })
-	facts["fingerprintReboundInClone"] = rebound
-	return facts, nil
-}
-
-func (x *c19) cloneTransport() error {
-	fd, err := x.c.funcDecl("", "Transport", "Clone")
-	if err != nil {
-		return err
-	}
-	src := fd.Recv.List[0].Names[0].Name
-	dst := ""
-	for _, f := range x.structs["Transport"].fields {
-		f.how, f.via = "absent", "not in the Transport literal"
-	}
-	for _, f := range x.structs["H2Transport"].fields {
-		f.how, f.via = "absent", "not in the http2.Transport literal"
-	}
-	var handle func(st ast.Stmt) error
-	handle = func(st ast.Stmt) error {
-		switch s := st.(type) {
-		case *ast.AssignStmt:
-			if len(s.Lhs) != 1 || len(s.Rhs) != 1 {
-				return fmt.Errorf("Transport.Clone: multi-assignment")
-			}
-			if id, ok := s.Lhs[0].(*ast.Ident); ok && s.Tok == token.DEFINE {
-				if l := c19Lit(s.Rhs[0]); l != nil && typeName(l.Type) == "Transport" {
-					dst = id.Name
-					return x.literalFields("Transport", l, src)
-				}
-				return nil // other locals (fn := …)
-			}
-			sel, ok := s.Lhs[0].(*ast.SelectorExpr)
-			if !ok || exprString(sel.X) != dst {
-				return fmt.Errorf("Transport.Clone: unsupported assignment target %s", exprString(s.Lhs[0]))
-			}
-			if sel.Sel.Name == "t2" {
-				l := c19Lit(s.Rhs[0])
-				if l == nil {
-					return fmt.Errorf("Transport.Clone: t2 is not rebuilt from a literal")
-				}
-				if err := x.set("Transport", "t2", "rebuilt", "&h2internal.Transport{…}"); err != nil {
-					return err
-				}
-				return x.literalFields("H2Transport", l, src+".t2")
-			}
-			how, via := c19Classify(s.Rhs[0], src, sel.Sel.Name)
-			return x.set("Transport", sel.Sel.Name, how, via)
-		case *ast.IfStmt:
-			for _, inner := range s.Body.List {
-				if err := handle(inner); err != nil {
-					return err
-				}
-			}
-		case *ast.ForStmt, *ast.RangeStmt:
-			// the re-wrapping loop assigns tt.wrappedRoundTrip again
-		case *ast.ExprStmt:
-			call, ok := s.X.(*ast.CallExpr)
-			if !ok {
-				return fmt.Errorf("Transport.Clone: unsupported statement")
-			}
-			switch exprString(call.Fun) {
-			case dst + ".EnableHTTP3":
-				for _, n := range []string{"t3", "altSvcJar", "pendingAltSvcs"} {
-					if err := x.set("Transport", n, "rebuilt", dst+".EnableHTTP3()"); err != nil {
-						return err
-					}
-				}
-			default:
-				return fmt.Errorf("Transport.Clone: unsupported call %s", exprString(call.Fun))
-			}
-		case *ast.ReturnStmt:
-		default:
-			return fmt.Errorf("Transport.Clone: unsupported statement %T", st)
-		}
-		return nil
-	}
-	for _, st := range fd.Body.List {
-		if err := handle(st); err != nil {
-			return err
-		}
-	}
-	if dst == "" {
-		return fmt.Errorf("Transport.Clone: no &Transport{…} literal found")
-	}
-	return nil
-}
-
-// valueCopyClone handles `oo := o` / `d := *do` style clones with later fix-ups.
-func (x *c19) valueCopyClone(dir, recv, key string, nested map[string]string) error {
-	fd, err := x.c.funcDecl(dir, recv, "Clone")
-	if err != nil {
-		return err
-	}
-	src := fd.Recv.List[0].Names[0].Name
-	dst := ""
-	var handle func(st ast.Stmt) error
-	handle = func(st ast.Stmt) error {
-		switch s := st.(type) {
-		case *ast.AssignStmt:
-			if len(s.Lhs) != 1 || len(s.Rhs) != 1 {
-				return fmt.Errorf("%s.Clone: multi-assignment", recv)
-			}
-			if id, ok := s.Lhs[0].(*ast.Ident); ok && s.Tok == token.DEFINE {
-				rs := exprString(s.Rhs[0])
-				if rs == src || rs == "*"+src {
-					dst = id.Name
-					for _, f := range x.structs[key].fields {
-						f.how, f.via = "assigned", dst+" := "+rs
-					}
-					return nil
-				}
-				if l := c19Lit(s.Rhs[0]); l != nil && typeName(l.Type) == recv {
-					dst = id.Name
-					for _, f := range x.structs[key].fields {
-						f.how, f.via = "absent", "not in the literal"
-					}
-					return x.literalFields(key, l, src)
-				}
-				return fmt.Errorf("%s.Clone: unsupported local %s", recv, id.Name)
-			}
-			sel, ok := s.Lhs[0].(*ast.SelectorExpr)
-			if !ok {
-				return fmt.Errorf("%s.Clone: unsupported assignment target", recv)
-			}
-			if exprString(sel.X) == dst {
-				how, via := c19Classify(s.Rhs[0], src, sel.Sel.Name)
-				return x.set(key, sel.Sel.Name, how, via)
-			}
-			// fix-up of a nested object: oo.TLSClientConfig.Certificates = …
-			if inner, ok := sel.X.(*ast.SelectorExpr); ok && exprString(inner.X) == dst {
-				if nkey, ok := nested[inner.Sel.Name]; ok {
-					how, via := c19Classify(s.Rhs[0], src+"."+inner.Sel.Name, sel.Sel.Name)
-					if f, ok := x.structs[nkey].byName[sel.Sel.Name]; ok {
-						f.how, f.via = how, via
-						return nil
-					}
-					return fmt.Errorf("%s.Clone: fix-up of %s.%s which the extractor does not track", recv, nkey, sel.Sel.Name)
-				}
-			}
-			return fmt.Errorf("%s.Clone: unsupported assignment target %s", recv, exprString(s.Lhs[0]))
-		case *ast.IfStmt:
-			if s.Else != nil {
-				return fmt.Errorf("%s.Clone: if/else", recv)
-			}
-			// `if x == nil { return nil }` guard or conditional fix-ups
-			for _, inner := range s.Body.List {
-				if _, ok := inner.(*ast.ReturnStmt); ok {
-					continue
-				}
-				if err := handle(inner); err != nil {
-					return err
-				}
-			}
-		case *ast.GoStmt, *ast.ReturnStmt:
-		default:
-			return fmt.Errorf("%s.Clone: unsupported statement %T", recv, st)
-		}
-		return nil
-	}
-	for _, st := range fd.Body.List {
-		if err := handle(st); err != nil {
-			return err
-		}
-	}
-	if dst == "" {
-		return fmt.Errorf("%s.Clone: no copy found", recv)
-	}
-	return nil
-}
-
 // ---------------------------------------------------------------- main
 
 func c19OpenClasses(out string) map[string]bool {
@@ -939,37 +578,10 @@ func c19CloneTable(c *ctx) (string, error) {
 	}
 
 	// ---- Clone bodies
-	facts, err := x.cloneClient()
+	facts, err := x.cloneBodies()
 	if err != nil {
 		return "", err
 	}
-	if err := x.cloneTransport(); err != nil {
-		return "", err
-	}
-	if err := x.valueCopyClone("internal/transport", "Options", "Options", map[string]string{"TLSClientConfig": "TLSConfig"}); err != nil {
-		return "", err
-	}
-	if err := x.valueCopyClone("", "retryOption", "retryOption", nil); err != nil {
-		return "", err
-	}
-	if err := x.valueCopyClone("", "DumpOptions", "DumpOptions", nil); err != nil {
-		return "", err
-	}
-
-	// ---- Client.R clones the retry option
-	rfd, err := c.funcDecl("", "Client", "R")
-	if err != nil {
-		return "", err
-	}
-	rsrc := rfd.Recv.List[0].Names[0].Name
-	facts["requestRetryFresh"] = false
-	ast.Inspect(rfd.Body, func(n ast.Node) bool {
-		if kv, ok := n.(*ast.KeyValueExpr); ok && exprString(kv.Key) == "retryOption" {
-			how, _ := c19Classify(kv.Value, rsrc, "retryOption")
-			facts["requestRetryFresh"] = how == "cloned"
-		}
-		return true
-	})
 
 	// ---- setters: seeds are the exported settings methods; helpers they call are added transitively
 	ms, err := x.methods("", map[string]string{"Client": "Client", "Transport": "Transport"})
